@@ -1,6 +1,8 @@
 import PqV.Impl.Append
 import PqV.Lemmas.Footer
 import PqV.Lemmas.Dataset
+import PqV.Lemmas.DatasetInv
+import PqV.Props.C09
 /-!
 # C07 — append adds rows at the end and leaves existing data untouched
 -/
@@ -90,5 +92,41 @@ theorem append_cats_fails :
   ⟨[⟨["x", "y"], [0, 1, 0]⟩, ⟨["y", "x"], [0, 1, 0]⟩], by decide⟩
 
 example : footerLoc false [9, 9, 1, 2, 3, 3, 0, 0, 0, 0x50, 0x41, 0x52, 0x31] ≤ 13 := by decide
+
+
+section sequences
+open PqV.Impl.DatasetOps
+
+/-- **any sequence of appends to a multi-file dataset**: what is read afterwards is what was read
+    before followed by every appended batch, piece by piece, in the order of the appends; the invariant
+    (metadata and directory agree, no shared files) still holds; and every file that existed before the
+    first append still holds exactly the rows it held. -/
+theorem appends_concatenate (nds : List NewData) (hp : ∀ nd ∈ nds, PiecesOk nd) :
+    ∀ (ds : DS), Inv ds →
+      content (nds.foldl addNew ds) = content ds ++ nds.flatMap (fun nd => nd.flatMap id) ∧
+      Inv (nds.foldl addNew ds) ∧
+      ∀ r ∈ ds.refs, fget (nds.foldl addNew ds).files (key r) = some r.rows := by
+  induction nds with
+  | nil => intro ds h; exact ⟨by simp, h, h.refs_ok⟩
+  | cons nd rest ih =>
+    intro ds h
+    have h1 := addNew_inv ds nd h (hp nd List.mem_cons_self)
+    obtain ⟨a, b, c⟩ := ih (fun x hx => hp x (List.mem_cons_of_mem _ hx)) (addNew ds nd) h1
+    refine ⟨?_, b, ?_⟩
+    · simp only [List.foldl_cons, List.flatMap_cons]
+      rw [a]
+      have : content (addNew ds nd) = content ds ++ nd.flatMap id := by
+        simp only [content, addNew, List.map_append]
+        congr 1
+        have := PqV.Props.C09.newRefs_content (maxPart ds.refs) nd 0
+        simpa using this
+      rw [this, List.append_assoc]
+    · intro r hr
+      simp only [List.foldl_cons]
+      apply c
+      simp only [addNew, List.mem_append]
+      exact Or.inl hr
+
+end sequences
 
 end PqV.Props.C07
